@@ -438,6 +438,19 @@ def caught (k : ErrKind) : Caught :=
   let p := protoFor n
   { name := p, instanceOf := if p = "Error" then ["Error"] else [p, "Error"], hasMessage := m }
 
+/-- what a script has done to the GLOBAL BINDING of a native error constructor before the engine raises that class -/
+inductive Rebind
+  | untouched
+  | toFunction      -- `TypeError = function (m) { … }`
+  | toNonFunction   -- `TypeError = 42`
+  | deleted         -- `delete this.TypeError`
+deriving Repr, DecidableEq
+
+/-- type_error.go:26-45 `newErrorObjectError` picks `rt.global.TypeErrorPrototype` … – fields of the runtime's private
+    table of intrinsics, filled when the runtime is made.  The global object's properties are not consulted, so
+    the history of the binding does not enter. -/
+def caughtAfter (_h : Rebind) (k : ErrKind) : Caught := caught k
+
 /-! ## what `Run` returns for an uncaught exception: `catchPanic` + `Error.Error()` -/
 
 /-- the thrown value, as far as `catchPanic` distinguishes -/
